@@ -37,3 +37,62 @@ def brief(rec):
     keys = ["id", "cls", "nodes", "edges", "ew", "nw", "mode", "wt", "k", "ign", "cons", "starts", "ends", "opt",
             "solved", "routes", "weights", "slacks", "obj"]
     return {k: rec[k] for k in keys if k in rec}
+
+
+def adversary(module, recs, res, cfg="Adv.cfg", nshards=16, timeout=2400, tags=("WITNESS",), heap="3g", extra_env=None):
+    """Run an adversary machine over records (each carrying its own bound); returns {id: [witness tuples]}."""
+    if not recs:
+        return {}
+    sc = vlib.scratch_dir()
+    files = []
+    # balance shards by a rough cost estimate (bigger bound / more edges = costlier)
+    order = sorted(recs, key=lambda r: -(len(r["edges"]) * (1 + max(0, r.get("bound", 1)))))
+    for i, sh in enumerate(vlib.shard(order, nshards)):
+        p = os.path.join(sc, f"adv{i}.ndjson")
+        vlib.write_ndjson(p, sh)
+        files.append(p)
+    rs = vlib.run_shards(module, cfg, files, extra_env or {}, timeout=timeout, heap=heap)
+    wit = {}
+    for r in rs:
+        if not vlib.tlc_ok(r):
+            raise vlib.Machinery(f"TLC failed on {module}: " + r["stdout"][-3000:])
+        res.add_tlc(r)
+        for v in vlib.extract_tagged(r["stdout"], tags=tags):
+            wit.setdefault(v[1], []).append(v)
+    shutil.rmtree(sc, ignore_errors=True)
+    return wit
+
+
+def min_count_adversary(recs, res, module, exact, exists_bound=None):
+    """Optimality of a count objective, decided by TLC exploring `module` bounded by the observation.
+    exact(r) -> bool: the adversary's search space is complete for r (DESIGN 5.3)."""
+    adv = []
+    kind = {}
+    for r in recs:
+        if r.get("timeout") or not exact(r):
+            continue
+        if r["solved"] and r["got_solution"]:
+            b = len([p for p in r["routes"] if len(p) >= 1]) - 1
+            if b < 0:
+                continue
+            a = dict(r)
+            a["bound"] = b
+            adv.append(a)
+            kind[r["id"]] = "Minimal"
+            res.count_class("adversary_minimality_runs")
+        elif r.get("expect_solved") and not r["solved"]:
+            a = dict(r)
+            a["bound"] = exists_bound(r) if exists_bound else len(r["edges"]) + len(r["nodes"])
+            adv.append(a)
+            kind[r["id"]] = "Exists"
+            res.count_class("adversary_existence_runs")
+    wit = adversary(module, adv, res)
+    byid = {r["id"]: r for r in recs}
+    for rid, ws in wit.items():
+        c = "MinimalCount" if kind[rid] == "Minimal" else "SolutionExistsButUnsolved"
+        res.clause(c, 0, 1)
+        res.violation(c, byid[rid], {"witness": ws[0], "meaning": "TLC reached a goal state of " + module +
+                                     f" using {ws[0][2]} routes (bound {[a['bound'] for a in adv if a['id']==rid][0]})"})
+    for a in adv:
+        res.clause("MinimalCount" if kind[a["id"]] == "Minimal" else "SolutionExistsButUnsolved", 1, 0)
+    return wit
